@@ -287,6 +287,10 @@ type Reader struct {
 	PerHold   []int   `json:"per_hold"`  // reads completed inside each hold span
 	FirstBad  string  `json:"first_bad,omitempty"`
 
+	Changed      int    `json:"records_changed"` // a record handed out earlier changed, or a version was seen with two statuses
+	FirstChanged string `json:"first_changed,omitempty"`
+	HeldChecks   int    `json:"held_checks"`
+
 	Expansions        int    `json:"expansions"` // GetResults calls checked against the reference expansion
 	BadExpansions     int    `json:"bad_expansions"`
 	FirstBadExpansion string `json:"first_bad_expansion,omitempty"`
@@ -599,8 +603,10 @@ func runScenario(c cfg, rng *vlib.Rand) Scenario {
 		}
 	}
 	if hold > 0 {
-		if sc.Holds < 2 {
-			sc.Failures = append(sc.Failures, "setup: fewer than two source calls were held open")
+		if sc.Holds == 0 {
+			// (on a starved machine few calls complete inside the run; none at all means
+			// the scenario did not exercise anything)
+			sc.Failures = append(sc.Failures, "setup: no source call was held open")
 		}
 		// a reader that waited for the writer would have a median latency of the order of
 		// the hold time.  (The number of reads completed inside each hold is reported but is
@@ -617,7 +623,7 @@ func runScenario(c cfg, rng *vlib.Rand) Scenario {
 		if sc.FetchAll > max {
 			sc.Failures = append(sc.Failures, fmt.Sprintf("auto-refresh: %d FetchAll calls in %dms with a refresh interval of %v (at most %d expected)", sc.FetchAll, sc.ElapsedMs, c.auto, max))
 		}
-		if sc.FetchAll < 4 {
+		if sc.FetchAll < 4 && sc.Holds == 0 {
 			sc.Failures = append(sc.Failures, "setup: the automatic refresh never ran")
 		}
 	}
